@@ -250,7 +250,22 @@ func (s *c35Srv) confFingerprint() string {
 	return strings.Join(out, "\n")
 }
 
+// stop closes the Core. A shutdown that hangs (e.g. behind a dead-locked handler) is not waited for longer than 30 s:
+// it would only burn the test timeout; the canaries have reported the hang already.
 func (s *c35Srv) stop() {
+	done := make(chan struct{})
+	go func() {
+		defer close(done)
+		s.stopInner()
+	}()
+	select {
+	case <-done:
+	case <-time.After(30 * time.Second):
+		fmt.Println("C35: Core.Close() did not return within 30 s; abandoning it")
+	}
+}
+
+func (s *c35Srv) stopInner() {
 	if keep := os.Getenv("C35_KEEPLOG"); keep != "" { // debugging aid
 		if b, err := os.ReadFile(filepath.Join(s.Dir2, "mediamtx.log")); err == nil {
 			os.WriteFile(keep, b, 0o644) //nolint:errcheck
@@ -1070,10 +1085,13 @@ func (s *c35Srv) canaries() string {
 	if len(dead) == 0 {
 		return ""
 	}
-	if len(dead) < len(c35CanaryNames)/2 && slowest < 2*time.Second {
-		return "violation: listener(s) stopped answering (4 attempts, 5s each) while the other listeners answered within " + slowest.String() + ": " + strings.Join(dead, "; ")
+	// the process is responsive (some listener answered quickly) but these stayed silent through 4 attempts of 5 s
+	good := len(c35CanaryNames) - len(failed)
+	if good > 0 && slowest < 2*time.Second {
+		return fmt.Sprintf("violation: %d listener(s) stopped answering (4 attempts, 5 s each) while %d others answered within %s: %s",
+			len(dead), good, slowest, strings.Join(dead, "; "))
 	}
-	return "inconclusive: canaries failed but the whole process is slow (slowest good canary " + slowest.String() + "): " + strings.Join(dead, "; ")
+	return "inconclusive: canaries failed and no listener answers quickly (slowest good canary " + slowest.String() + "): " + strings.Join(dead, "; ")
 }
 
 // ---------------------------------------------------------------- small helpers
